@@ -18,7 +18,8 @@ def sp(rng, lo=0.5):
     if r < lo + 0.1:
         return '  '
     if r < lo + 0.15:
-        return ' /* c */ '
+        # a comment IS white space (5.1.1.2 phase 3): also with nothing else around it
+        return rng.choice([' /* c */ ', '/* c */', '/**/', '/*/ */'])
     if r < lo + 0.2:
         return '\t'
     return ''
@@ -61,6 +62,8 @@ def join(rng, toks, nl_prob=0.0, lo=0.5):
             s = rng.choice(['\n', ' \n', '\n ', '\n\n'])
         if not s and needs_space(prev, t):
             s = ' '
+        if s.startswith('/') and prev.endswith('/'):
+            s = ' ' + s               # `/` followed by a comment opener would read as `//`
         out += s + t
         prev = t
     return out
@@ -304,7 +307,8 @@ def gen_redef_pair(rng):
     expect = 'ok'
     if kind == 'ws-amount':
         seps2 = [(s * 3 if s else s) for s in seps]
-        seps2 = [(' /* x */ ' if (s and rng.random() < 0.3) else s) for s in seps2]
+        seps2 = [(rng.choice([' /* x */ ', '/* x */', '/**/']) if (s and rng.random() < 0.3 and i > 0 and not body[i - 1].endswith('/')) else s)
+                 for i, s in enumerate(seps2)]
     elif kind == 'lead':
         lead2 = '   \t '
     elif kind == 'ws-presence':
